@@ -157,6 +157,9 @@ def basic_solution(lp, cstat, rstat):
     xs = [F(0)] * (n + m)
     for j in range(n):
         c = cstat[j]
+        if c != "1" and fin(lp["lo"][j]) and lp["lo"][j] == lp["up"][j]:
+            xs[j] = F(lp["lo"][j])          # a non-basic fixed column sits at its bounds whatever its label
+            continue
         if c == "0":
             if not fin(lp["lo"][j]):
                 return None
@@ -314,6 +317,9 @@ def basis_scenario(lp, sid, r, maxbases=40):
             lines += ["write_basis h0 b0 %s" % f, "read_basis h0 b1 %s" % f, raw(dict(call="basis_rt", h="h0", b="b0", b2="b1"))]
         if k > .8:
             lines += ["load_basis h0 b0", "opt_primal h0", "sol h0", "binv h0"]
+        if .5 < k < .8:
+            # warm start of the exact driver from this (arbitrary valid) basis: the basis handed back must describe the solution
+            lines += ["exact h0 %s b0 1" % ("dual" if k < .65 else "primal"), "sol h0", "basis_optimalstatus h0 b0"]
     lines.append("free h0")
     return "\n".join(lines) + "\n"
 
